@@ -5,7 +5,7 @@ import numpy as np
 import torch
 from omegaconf import OmegaConf
 
-from simcore.sched import SimQueue
+from simcore.sched import SimQueue, sim_threading
 from worlds import dataworld as dw
 from worlds import media, stream
 from worlds.idealnet import IdealNet
@@ -164,6 +164,11 @@ def run_predictor(plan, provider, choices=None, batch=None, frames_subset=None, 
                           choices, step_cap=80 * (n + 3) + 400)
     hook = stream.ReadFaults(sim, plan.get("faults", []))
     sim.register_main("consumer")
+    with sim_threading(sim):  # locks / events / conditions made by sleap_nn code are the simulator's
+        return _run_predictor(p, plan, sim, provider, hook, batch, max_instances)
+
+
+def _run_predictor(p, plan, sim, provider, hook, batch, max_instances):
     pred, nets = build_predictor(p, sim, provider, hook=hook, batch=batch, max_instances=max_instances)
     if provider != "video" and any("vid" in f for f in p["frames"]):
         vids = pred.pipeline.labels.videos
